@@ -212,6 +212,37 @@ theorem connect_ends_after_terminate (o : Opts) (env : List Ans) (ts : List Bool
     ∃ n, n ≤ 21 ∧ after (connect o env ts).2.log = some n :=
   connect_prompt o env ts hm
 
+/-- The run loop of the link controller (`run_as_initiator` / `run_as_target`, `while not terminate()`)
+notices `terminate()` at the head of the very next turn, WHATEVER the traffic is: for every traffic
+list `l` (one entry per exchange the peer still answers, `true` = the local link layer has a PDU to send
+in the next turn), if `terminate()` answers false `pre.length` times (the peer answering at least that
+many exchanges) and then true, the loop makes exactly these polls and ends with the true answer as its
+last event - no further exchange, the remaining stream untouched. -/
+theorem llc_run_loop_ends_at_first_true (l : List Bool) (pre rest : List Bool) (s : St)
+    (hpre : ∀ b ∈ pre, b = false) (hlen : pre.length ≤ l.length) :
+    runLoop l (pre ++ true :: rest) s =
+      ({ s with log := s.log ++ pre.map (fun _ => Ev.term false) ++ [.term true] }, rest) := by
+  induction pre generalizing l s with
+  | nil => cases l <;> simp [runLoop, St.emit]
+  | cons b pre ih =>
+    have hb : b = false := hpre b (by simp)
+    subst hb
+    cases l with
+    | nil => simp at hlen
+    | cons a l =>
+      simp only [List.cons_append, runLoop]
+      rw [ih l (s.emit (.term false)) (fun b hb => hpre b (by simp [hb])) (by simpa using hlen)]
+      simp [St.emit]
+
+/-- the loop never makes more polls than the peer answers exchanges plus one, and the traffic flags
+do not matter: it is the bounded poll loop `runPolls` -/
+theorem llc_run_loop_polls (l : List Bool) (ts : List Bool) (s : St) :
+    runLoop l ts s = runPolls (l.length + 1) ts s := runLoop_eq l ts s
+
+/-- busy traffic in every turn, terminate() true at the third poll: three polls, nothing else -/
+example : (runLoop [true, true, true, true, true, true] [false, false, true, true] (St.init [])).1.log
+    = [.term false, .term false, .term true] := by decide
+
 example : Mono [false, false, true, true] := by simp [Mono, AllTrue]
 def cardF : Opts := ⟨none, none, some ⟨some (.proper, 0), .f, .absent, .absent, .absent⟩⟩
 example : after (connect cardF [.nothing, good', good', good', good'] [false, false, true]).2.log = some 1 := by decide
